@@ -235,6 +235,29 @@ fn judge_cli(ctx: &mut Ctx, sub: &str, kind: &str, args: Vec<String>, stdin: Opt
             bad = Some(format!("non-zero exit and stdout {:?} - no result line ({})", exp.stdout, exp.why));
         }
     }
+    // independent of what the in-process library prints: where the reference model specifies the call, stdout
+    // holds one line per evaluated `log` and then the result line - nothing else (no diagnostics, no traces)
+    if bad.is_none() && strict_stdout {
+        if let Some((r, d)) = texts {
+            if let (Ok(rule), Ok(data)) = (serde_json::from_str::<Value>(r), serde_json::from_str::<Value>(d)) {
+                let (exp, tr) = crate::refmodel::reference(&rule, &data);
+                let lines: Vec<&str> = o.stdout.lines().collect();
+                match exp {
+                    crate::refmodel::Exp::Val(v) => {
+                        if lines.len() != tr.values.len() + 1 || lines.last().map(|l| *l != v.to_string()).unwrap_or(true) {
+                            bad = Some(format!("{} log line(s), then the result line {} (reference model)", tr.values.len(), v));
+                        }
+                    }
+                    crate::refmodel::Exp::Err => {
+                        if lines.len() > tr.values.len() {
+                            bad = Some(format!("at most {} log line(s) and no result line (reference model: error)", tr.values.len()));
+                        }
+                    }
+                    crate::refmodel::Exp::Unspec => {}
+                }
+            }
+        }
+    }
     if let Some(e) = bad {
         let tail: String = o.stderr.chars().take(200).collect();
         ctx.fail(sub, case.clone(), e, format!("exit {:?} signal {:?} stdout {:?} stderr {:?}", o.code, o.signal, o.stdout, tail), None);
@@ -290,6 +313,33 @@ pub fn c18(ctx: &mut Ctx) {
                         judge_cli(ctx, "unicode-space:rule", kind, vec![text.clone(), "null".into()], None, Some((&text, "null")), true);
                         judge_cli(ctx, "unicode-space:rule:data-stdin", kind, vec![text.clone()], Some("null"), Some((&text, "null")), true);
                     }
+                }
+            }
+        }
+        // the value corpora whose conversions have rarely taken branches (white-space blocks, mutated and radix
+        // literals, digit strings at the integer limits), as data of a few converting rules: what the library
+        // computes is what is printed, and nothing else is
+        {
+            let mut vals = crate::selftest::unary_corpus();
+            vals.extend(crate::alphabet::magnitude_ladder().into_iter().step_by(3));
+            for (i, v) in vals.iter().enumerate() {
+                if !ctx.mine() {
+                    continue;
+                }
+                // NUL cannot travel in argv; such texts go by stdin only
+                let text = v.to_string();
+                let rules = [r#"{"*":[{"var":""},1]}"#, r#"{"<":[{"var":""},"0x10"]}"#, r#"{"+":[{"var":""}]}"#, r#"{"cat":[{"var":""},{"==":[{"var":""},1]}]}"#];
+                let r = rules[i % rules.len()];
+                ctx.edge();
+                if i % 2 == 0 && !text.contains('\u{0}') {
+                    judge_cli(ctx, "conversion-corpus:argument", kind, vec![r.to_string(), text.clone()], None, Some((r, &text)), true);
+                } else {
+                    judge_cli(ctx, "conversion-corpus:stdin", kind, vec![r.to_string()], Some(&text), Some((r, &text)), true);
+                }
+                if v.is_string() && i % 3 == 0 {
+                    // ... and as a literal inside the rule text
+                    let rt = format!(r#"{{"-":[{},0]}}"#, text);
+                    judge_cli(ctx, "conversion-corpus:rule", kind, vec![rt.clone(), "null".into()], None, Some((&rt, "null")), true);
                 }
             }
         }
